@@ -9,6 +9,11 @@ import random
 from harness import common, corpus, gen, oracle
 
 
+def oracle_parses(rsmi):
+    from harness import oracle
+    return oracle.reaction_facts(rsmi)["parses"]
+
+
 def build_plan(tier, seed):
     rng = random.Random(seed * 7919 + 13)
     quick = tier == "quick"
@@ -23,6 +28,7 @@ def build_plan(tier, seed):
     for k in ("reverse", "union", "double", "drop_small", "drop_any"):
         main += [s for s in der[k] if s]
     main += gen.redox_triggers(rng, n_red)
+    main += [s_ for s_ in gen.element_swaps(30 if quick else None, rng) if oracle_parses(s_)]
     main += gen.BALANCED_SPECIAL + gen.UNBALANCED_SPECIAL + gen.marker_inputs()
     main += corpus.sample(corpus.plain_reactions(), 40 if quick else 600, rng)
     # de-duplicate, keep order
@@ -74,6 +80,12 @@ def build_plan(tier, seed):
     runs.append({"name": "refeed_flags", "inputs": fed, "form": "dict", "batch_size": None, "n_jobs": 4, "threshold": 0})
     fed2 = [dict(r_, id="row-%d" % (100 - j), solved=(j % 2 == 0)) for j, r_ in enumerate(fed)]
     runs.append({"name": "refeed_flags_b4", "inputs": fed2, "form": "dict", "batch_size": 4, "n_jobs": 4, "threshold": 0})
+    # the same atom-mapped reaction string several times in one batch (and across batches)
+    mp = ["[CH3:1][CH2:2][Br:3].[NH3:4]>>[CH3:1][CH2:2][NH2:4]", "[CH3:1][C:2](=[O:3])[O:4][CH2:5][CH3:6]>>[CH3:6][CH2:5][OH:4]",
+          "[CH3:1][CH2:2][OH:3]>>[CH3:1][CH2:2][OH:3]"] + corpus.sample(corpus.small_fast(corpus.mapped_reactions()), 3, rng)
+    dup = mp + mp[::-1] + [mp[0], mp[0], mp[2]]
+    runs.append({"name": "dup_mapped", "inputs": dup, "form": "list", "batch_size": None, "n_jobs": 4, "threshold": 0})
+    runs.append({"name": "dup_mapped_b5", "inputs": dup, "form": "dict", "batch_size": 5, "n_jobs": 4, "threshold": 0})
     # thresholds sitting on a reported confidence (learned from the run "only_mcs" in the same process)
     thr_in = kinds["mcs"] + kinds["rule"][:2] + kinds["balanced"][:2]
     for k in range(3 if quick else 6):
